@@ -17,7 +17,8 @@ HERE = os.path.dirname(os.path.dirname(os.path.abspath(__file__)))
 sys.path.insert(0, HERE)
 RESULT_FIELDS = ("ret", "outs", "post", "vals", "val", "fwd", "imgs", "toks", "rets", "mat", "out", "prob", "heff", "samples",
                  "py", "after", "copy", "again", "a1", "text", "back", "bwd", "l", "entries", "probes", "steps", "cnt", "collisions",
-                 "terms", "bits", "lines", "support", "chi2m", "c0", "differ", "wpost", "wfwd", "mid", "acq", "ipow", "w", "L")
+                 "terms", "lines", "support", "chi2m", "c0", "differ", "wpost", "wfwd", "mid", "acq", "ipow", "w", "L",
+                 "maps", "letters", "qubits", "bits", "out2", "out1", "gens", "snap", "povm", "wbwd", "samples", "outputs")
 
 
 BIG = [False]       # statistical acceptance regions are intervals: there a count is changed by a lot, not by one
@@ -122,13 +123,15 @@ def main(ids):
                 ret = r.get("ret")
                 if isinstance(ret, dict) and ret.get("terms") == []:
                     continue                         # (an empty result has nothing to corrupt)
+                if "refused" in r or any(r.get(f) == [] for f in ("ret", "vals", "outs", "val")):
+                    continue                         # (a documented refusal / an empty answer has nothing to corrupt)
                 if "exc" not in r and r.get("op") != "refusal" and seen.get((key, "n"), 0) < 40:
                     seen[key] = r                    # (the 40th record of each kind: the first ones are degenerate inputs)
                     seen[(key, "n")] = seen.get((key, "n"), 0) + 1
         seen = {k: v for k, v in seen.items() if isinstance(v, dict)}
         print("== %s: %d operation kinds recorded" % (pid, len(seen)))
         for (op, pkg), rec in sorted(seen.items(), key=str):
-            fields = [f for f in RESULT_FIELDS if f in rec]
+            fields = [f for f in RESULT_FIELDS if f in rec] + (["m"] if op == "randmap" else [])
             BIG[0] = op in STAT_OPS
             if not fields:
                 print("   %-14s %-6s (no result field to corrupt)" % (op, pkg))
